@@ -373,7 +373,10 @@ func (r *c04r[K]) Exec(op []string) string {
 	case "set":
 		k, v := atoi(op[2]), atoi(op[3])
 		r.noteKey(op[0], k)
-		_, had := m.GetOK(r.enc(k))
+		had := false
+		if !blindObs { // label only: no lookup before the Set in the query-free execution
+			_, had = m.GetOK(r.enc(k))
+		}
 		isNew := m.Set(r.enc(k), v) // panics on the zero Map
 		if had {
 			r.st.Note("set-existing")
@@ -859,8 +862,37 @@ func genC04Large(g *G) {
 	}
 }
 
+// genC04Succ: "set the successor, delete the two-child entry above it, set the successor again" (round-7 seeds: a
+// lookup hint in the tree under the map that goes stale when the successor node is detached), at three alignments
+// w.r.t. the blind re-execution's schedule.
+func genC04Succ(g *G) {
+	for i := 0; i < g.Scale(30, 200); i++ {
+		n := 5 + g.Intn(8)
+		for pad := 0; pad < 3; pad++ {
+			ops := []string{"reset " + g.Pick("nat", "flt"), "mk 0 new"}
+			v := 1
+			for _, j := range g.R.Perm(n) {
+				ops = append(ops, fmt.Sprintf("set 0 %d %d", 20+10*j, v))
+				v++
+			}
+			for p := 0; p < pad; p++ {
+				ops = append(ops, "delete 0 5") // absent: nothing happens
+			}
+			for round := 0; round < 3; round++ {
+				j := g.Intn(n - 1)
+				p, succ := 20+10*j, 30+10*j
+				ops = append(ops, fmt.Sprintf("set 0 %d %d", succ, v), fmt.Sprintf("delete 0 %d", p),
+					fmt.Sprintf("set 0 %d %d", succ, v+1), fmt.Sprintf("set 0 %d %d", p, v+2))
+				v += 3
+			}
+			g.Case(ops)
+		}
+	}
+}
+
 func genC04(g *G) {
 	genC04Large(g)
+	genC04Succ(g)
 	cases := g.Scale(1500, 20000)
 	maxOps := g.Scale(90, 400)
 	for c := 0; c < cases; c++ {
